@@ -30,9 +30,9 @@ ASSUMPTIONS = [
     "mutations touch top-level chunks only (embedded projects/effects are exercised through generated files)",
 ]
 # classes of cases that are produced deterministically: their absence is a harness error (see vlib.harness)
-HARD_LABELS = ['fixture', 'fixture_option_sweep']
+HARD_LABELS = ['fixture', 'fixture_option_sweep', 'link_states']
 REQUIRED_LABELS = {
-    "quick": ["fixture", "generated_project", "generated_synth", "cval_out_of_range", "cval_neg_min_out_of_range", "option_bytes", "link_mutation", "pdta_mutation", "generated_metamodule", "user_controller_mapped_to_negative_min", "fixture_option_sweep"],
+    "quick": ["fixture", "generated_project", "generated_synth", "cval_out_of_range", "cval_neg_min_out_of_range", "option_bytes", "link_mutation", "pdta_mutation", "generated_metamodule", "user_controller_mapped_to_negative_min", "fixture_option_sweep", "link_states"],
     "thorough": ["fixture", "generated_project", "generated_synth", "cval_out_of_range", "cval_neg_min_out_of_range", "option_bytes", "link_mutation", "pdta_mutation", "fixture_cval_sweep"],
 }
 
@@ -51,6 +51,7 @@ def plan(tier):
     n, per = (15, 150) if tier == "quick" else (16, 3000)
     for i in range(n):
         descs.append({"kind": "mutants", "examples": per})
+    descs.append({"kind": "link_states"})
     fs_all = fixture_files()
     for i in range(4):
         descs.append({"kind": "fixture_option_sweep", "files": fs_all[i::4]})
@@ -493,6 +494,44 @@ def run_shard(ctx, desc):
             ctx.mark_nontrivial(["fixture", rel])
         ctx.sample({"src": "all fixtures", "count": len(fixture_files()), "cycles": cycles})
         return
+    if desc["kind"] == "link_states":
+        # every history of three connect / disconnect requests over four pairs of a small project:
+        # saving never changes the raw link tables (trailing freed slots included), two saves agree, and
+        # the file is stable from the second generation on
+        import itertools
+
+        from rv.api import Project, m
+
+        pairs = [(1, 2), (1, 3), (2, 3), (1, 0)]
+        ops = [(a, b, dis) for a, b in pairs for dis in (False, True)]
+        n = 0
+        for hist in itertools.product(ops, repeat=3):
+            p = Project()
+            for cls in (m.Amplifier, m.MetaModule, m.Generator):
+                p.new_module(cls)
+            for a, b, dis in hist:
+                if dis:
+                    p.modules[a] >> ~p.modules[b]
+                else:
+                    p.modules[a] >> p.modules[b]
+            raw0 = raw_tables(p)
+            y = p.read()
+            ctx.case()
+            rec = {"case": {"src": "link_history", "history": [list(h) for h in hist], "mutations": []}}
+            if not ctx.check(raw_tables(p) == raw0, "C05.save_is_pure.links", "history %r: saving changed the link tables in place: %r -> %r" % (hist, raw0, raw_tables(p)), key="C05.save_is_pure.links", recipe=rec):
+                continue
+            ctx.check(p.read() == y, "C05.save_deterministic", "history %r: two saves differ" % (hist,), recipe=rec)
+            if n % 16 == 0:
+                try:
+                    stability(y, 2, "link history %r" % (hist,))
+                except PropertyViolation as vio:
+                    ctx.check(False, vio.sub_oracle, vio.detail, key=vio.key, recipe=rec)
+            n += 1
+            if any(d for _, _, d in hist):
+                ctx.mark_nontrivial(["link_history", [list(h) for h in hist]])
+        ctx.label("link_states")
+        ctx.sample({"src": "link_states", "histories": n})
+        return
     if desc["kind"] == "fixture_option_sweep":
         # every options record found in the fixtures, rewritten so that exactly one option's field is set
         # (each option in turn, at 1 and at its top value), everything else off - and once all zeros
@@ -590,6 +629,25 @@ def run_shard(ctx, desc):
 
 def replay(ctx, doc):
     case = doc["recipe"]["case"]
+    if case.get("src") == "link_history":
+        from rv.api import Project, m
+
+        p = Project()
+        for cls in (m.Amplifier, m.MetaModule, m.Generator):
+            p.new_module(cls)
+        for a, b, dis in case["history"]:
+            if dis:
+                p.modules[a] >> ~p.modules[b]
+            else:
+                p.modules[a] >> p.modules[b]
+        raw0 = raw_tables(p)
+        y = p.read()
+        if raw_tables(p) != raw0:
+            raise PropertyViolation("C05.save_is_pure.links", "saving changed the link tables in place: %r -> %r" % (raw0, raw_tables(p)), "C05.save_is_pure.links")
+        if p.read() != y:
+            raise PropertyViolation("C05.save_deterministic", "two saves differ")
+        stability(y, 3, "link history")
+        return
     r = stability(bytes_of_case(case), 5, case["src"])
     if r == "unloadable" and not case["mutations"]:
         raise PropertyViolation("C05.unmutated_loads", "file does not load")
